@@ -356,9 +356,15 @@ func VH18a_modes() {
 		side = vt.Listen(sock, "a")
 		p1 = side.Peer("p1")
 		p1.SendMode = vt.SendBlock
+		// a second peer, stalled too: when the first one leaves the sender is still not without peers
+		var p2 *vt.Pipe
+		if verif.Choice("second-stalled-peer", 2) == 1 {
+			p2 = side.Peer("p2")
+			p2.SendMode = vt.SendBlock
+		}
 		var blocked *verif.G
 		var berr error
-		for i := 0; i < 4 && blocked == nil; i++ {
+		for i := 0; i < 6 && blocked == nil; i++ {
 			var e error
 			pe := &e
 			g := verif.Go("send", func() { *pe = ep.SendMsg(newMsg(proto)) })
@@ -368,6 +374,18 @@ func VH18a_modes() {
 				berrp := pe
 				p1.Drop()
 				verif.Quiesce()
+				if p2 != nil && !p2.Closed {
+					// one of two peers left: the call keeps waiting for the one that is still connected
+					if g.Done() {
+						verif.Assert(*berrp != mangos.ErrNoPeers, lab+"/no-peers-error-although-a-peer-is-still-connected")
+					}
+					verif.Reach("one-of-two-peers-left")
+					if g.Done() {
+						break
+					}
+					p2.Drop()
+					verif.Quiesce()
+				}
 				verif.Assert(g.Done(), lab+"/send-still-blocked-after-last-peer-left")
 				if g.Done() {
 					berr = *berrp
